@@ -1185,6 +1185,15 @@ class Symbolic(
           (value.sym_parent is not self
            or root_path != value.sym_path)):
         value = value.clone()
+      elif value.sym_parent is None:
+        # A root node must not be adopted below itself (or below one of its
+        # descendants), which would create a cycle: insert a copy instead.
+        node = self
+        while node is not None:
+          if node is value:
+            value = value.clone()
+            break
+          node = node.sym_parent
 
     if isinstance(value, TopologyAware):
       value.sym_setpath(utils.KeyPath(key, self.sym_path))
